@@ -492,6 +492,16 @@ def P31(m, R):
             cand[n.args[0].id] = cand.get(n.args[0].id, 0) + 1
     stored = {x.id for s_ in pre for x in ast.walk(s_) if isinstance(x, ast.Name) and isinstance(x.ctx, ast.Store)}
     items = next((k for k, _ in sorted(cand.items(), key=lambda kv: -kv[1]) if k in stored or k == seq), None)
+    # what the scan loop itself walks is the token list: `for i, tok in enumerate(items)`, `for tok in items`, `for i in range(len(items))`
+    if isinstance(scan, ast.For):
+        it_ = scan.iter
+        if isinstance(it_, ast.Call) and call_name(it_) == 'enumerate' and it_.args and isinstance(it_.args[0], ast.Name):
+            items = it_.args[0].id
+        elif isinstance(it_, ast.Name):
+            items = it_.id
+        elif isinstance(it_, ast.Call) and call_name(it_) == 'range' and len(it_.args) == 1 and call_name(it_.args[0]) == 'len' and \
+                it_.args[0].args and isinstance(it_.args[0].args[0], ast.Name):
+            items = it_.args[0].args[0].id
     if items is None:
         R.undecided(f, scan, 'the token list of the scan is not recognised', construct='token normalisation')
         return
